@@ -18,6 +18,7 @@ import (
 	"runtime"
 	"strings"
 	"sync"
+	"sync/atomic"
 	"time"
 
 	sse "github.com/tmaxmax/go-sse"
@@ -38,6 +39,7 @@ type joeTrace struct {
 	rOutcome   string
 	putOutcome string
 	failedSub  int // sub whose error was just placed (next loop.removed is its removal)
+	lastNow    int64 // what the injected clock returned to the replayer's last Now() call
 	pendSub    int // sub with a successful live Send whose Flush has not been seen yet, -1 if none
 	pendPub    string
 	facts      []string
@@ -221,10 +223,12 @@ type joeSub struct {
 type joePub struct {
 	topics []int
 	group  int
+	badID  bool // violates the replayer's ID mode (has an ID with automatic IDs / lacks one with manual IDs): Put rejects it
+	tick   int  // advance the injected clock by this many units before publishing (ValidReplayer only)
 }
 
 type joeScenario struct {
-	rep      string // none | rec | finite:N | faulty:<k>:<err|panic>
+	rep      string // none | rec | finite:N | valid:<ttl units> | faulty:<k>:<err|panic>
 	auto     bool
 	subs     []joeSub
 	pubs     []joePub
@@ -264,8 +268,11 @@ func drawScenario(rng *rand.Rand, big bool) joeScenario {
 		sc.rep = "none"
 	case 2, 3:
 		sc.rep = "rec"
-	case 4, 5, 6, 7:
+	case 4, 5:
 		sc.rep = fmt.Sprintf("finite:%d", 2+rng.Intn(5))
+		sc.auto = rng.Intn(2) == 0
+	case 6, 7:
+		sc.rep = fmt.Sprintf("valid:%d", 2+rng.Intn(5))
 		sc.auto = rng.Intn(2) == 0
 	default:
 		sc.rep = fmt.Sprintf("faulty:%d:%s", 1+rng.Intn(6), pick(rng, "err", "panic"))
@@ -294,7 +301,14 @@ func drawScenario(rng *rand.Rand, big bool) joeScenario {
 	}
 	groups := 1 + rng.Intn(3)
 	for p := 0; p < np; p++ {
-		sc.pubs = append(sc.pubs, joePub{topics: drawTopics(rng.Intn(10) == 0), group: rng.Intn(groups)})
+		pb := joePub{topics: drawTopics(rng.Intn(10) == 0), group: rng.Intn(groups)}
+		if (strings.HasPrefix(sc.rep, "finite") || strings.HasPrefix(sc.rep, "valid")) && rng.Intn(7) == 0 {
+			pb.badID = true
+		}
+		if strings.HasPrefix(sc.rep, "valid") {
+			pb.tick = pick(rng, 0, 0, 1, 1, 1, 2)
+		}
+		sc.pubs = append(sc.pubs, pb)
 	}
 	for i := 0; i < ns; i++ {
 		s := joeSub{topics: drawTopics(false), last: "-", cancel: "-", startAt: "0"}
@@ -355,7 +369,7 @@ func (sc joeScenario) String() string {
 		subs = append(subs, fmt.Sprintf("%s/%s/%d/%s/%s", intsStr(s.topics), s.last, s.failAt, s.cancel, s.startAt))
 	}
 	for _, p := range sc.pubs {
-		pubs = append(pubs, fmt.Sprintf("%s/%d", intsStr(p.topics), p.group))
+		pubs = append(pubs, fmt.Sprintf("%s/%d/%s/%d", intsStr(p.topics), p.group, b01(p.badID), p.tick))
 	}
 	j := func(x []string) string {
 		if len(x) == 0 {
@@ -389,6 +403,8 @@ func errName(err error, k int) string {
 // chanKey identifies a channel independently of its static type (chan error vs chan<- error)
 func chanKey(c any) uintptr { return reflect.ValueOf(c).Pointer() }
 
+const joeClockUnit = 1000 * time.Nanosecond
+
 var joeMu sync.Mutex // sse.VerifHook is a package global: one scenario at a time
 
 // JOE <seed> <big 0/1>
@@ -405,6 +421,7 @@ func runJoe(args []string) string {
 		msgToPub: map[*sse.Message]int{}, replaying: -1, failedSub: -1, pendSub: -1}
 
 	baseG := runtime.NumGoroutine()
+	var clock atomic.Int64
 
 	// replayer
 	var rep *joeReplayer
@@ -414,6 +431,18 @@ func runJoe(args []string) string {
 		rep = &joeReplayer{t: t}
 	case "finite":
 		inner, _ := sse.NewFiniteReplayer(atoi(parts[1]), sc.auto)
+		rep = &joeReplayer{t: t, inner: inner}
+	case "valid":
+		inner, _ := sse.NewValidReplayer(time.Duration(atoi(parts[1]))*joeClockUnit, sc.auto)
+		base := time.Unix(1_000_000, 0)
+		inner.Now = func() time.Time {
+			// called by Put, Replay and GC from Joe's goroutine: remember what this call saw
+			now := clock.Load()
+			t.mu.Lock()
+			t.lastNow = now
+			t.mu.Unlock()
+			return base.Add(time.Duration(now))
+		}
 		rep = &joeReplayer{t: t, inner: inner}
 	case "faulty":
 		rep = &joeReplayer{t: t, faultAt: atoi(parts[1]), fault: parts[2]}
@@ -428,7 +457,8 @@ func runJoe(args []string) string {
 	for p := range sc.pubs {
 		m := &sse.Message{}
 		m.AppendData(fmt.Sprintf("m%d", p))
-		if !(parts[0] == "finite" && sc.auto) {
+		autoIDs := (parts[0] == "finite" || parts[0] == "valid") && sc.auto
+		if autoIDs == sc.pubs[p].badID {
 			m.ID = sse.ID(fmt.Sprintf("id%d", p))
 		}
 		msgs[p] = m
@@ -475,7 +505,7 @@ func runJoe(args []string) string {
 			if len(t.rc) > 0 {
 				rc = strings.Join(t.rc, ".")
 			}
-			t.add(fmt.Sprintf("sa%d:%s:%s", t.replaying, rc, t.rOutcome))
+			t.add(fmt.Sprintf("sa%d:%s:%s@%d", t.replaying, rc, t.rOutcome, t.lastNow))
 			t.replaying = -1
 			t.mu.Unlock()
 		case "loop.msg":
@@ -498,7 +528,7 @@ func runJoe(args []string) string {
 			if !ok {
 				t.fact("UNKNOWN-MESSAGE-IN-LOOP")
 			}
-			t.add(fmt.Sprintf("pa%d:%s", p, t.putOutcome))
+			t.add(fmt.Sprintf("pa%d:%s@%d", p, t.putOutcome, t.lastNow))
 			t.mu.Unlock()
 		case "loop.errPlaced":
 			t.mu.Lock()
@@ -575,7 +605,7 @@ func runJoe(args []string) string {
 			last = sse.ID("never-issued")
 		case s.last[0] == 'n':
 			k := atoi(s.last[1:])
-			if parts[0] == "finite" && sc.auto {
+			if (parts[0] == "finite" || parts[0] == "valid") && sc.auto {
 				last = sse.ID(fmt.Sprint(k)) // automatic IDs count accepted Puts; equals k only if all earlier puts were accepted in index order
 			} else {
 				last = sse.ID(fmt.Sprintf("id%d", k))
@@ -625,12 +655,17 @@ func runJoe(args []string) string {
 			defer pwg.Done()
 			for _, p := range ps {
 				t.perturb()
+				clock.Add(int64(sc.pubs[p].tick) * int64(joeClockUnit))
 				t.mu.Lock()
 				t.add(fmt.Sprintf("pc%d", p))
 				t.mu.Unlock()
 				err := joe.Publish(msgs[p], topicsOf(sc.pubs[p].topics))
+				en := errName(err, 0)
+				if strings.HasPrefix(en, "other(") {
+					en = "put" // the real replayers' own rejection errors
+				}
 				t.mu.Lock()
-				t.add(fmt.Sprintf("pR%d:%s", p, errName(err, 0)))
+				t.add(fmt.Sprintf("pR%d:%s", p, en))
 				t.mu.Unlock()
 				close(pubDone[p])
 			}
